@@ -113,6 +113,7 @@ class TokenSemantics(object):
             class_methods=self.methods, class_own=self.own,
             class_bases=self.bases, max_steps=200000)
         ev.inline_module_functions = True
+        ev.iter_hook = lambda x: list(py_iter(x))
         ev.walk = ('pyfunc', walk)
         ev.dispatcher = Obj('Dispatcher', deferrable=('pyfunc', deferrable))
         return ev
